@@ -94,7 +94,22 @@ func c17NodeStart(c *Ctx) {
 	names := nodeTypeNames(t)
 	k2s, _ := kindTable(t)
 	// arms: return blocks controlled by node.NodeType == K
-	arm := map[int64]*ssa.Return{}
+	type armInfo struct {
+		val ssa.Value
+		at  ssa.Instruction
+	}
+	arm := map[int64]*armInfo{}
+	record := func(val ssa.Value, at ssa.Instruction, b *ssa.BasicBlock) {
+		for _, ec := range controlling(b) {
+			if bo, ok := ec.Cond.(*ssa.BinOp); ok && bo.Op == token.EQL && ec.Pol && strings.HasSuffix(path(bo.X), ".NodeType") {
+				if v, ok := constInt(bo.Y); ok {
+					if _, dup := arm[v]; !dup || !strings.Contains(path(val), "InvalidLnColPos") {
+						arm[v] = &armInfo{val, at}
+					}
+				}
+			}
+		}
+	}
 	// the dispatcher may route groups of kinds to same-package helpers that hold the arms
 	fns := []*ssa.Function{fn}
 	isHelper := map[*ssa.Function]bool{}
@@ -117,15 +132,15 @@ func c17NodeStart(c *Ctx) {
 			if call, isC := ret.Results[0].(*ssa.Call); isC && isHelper[call.Call.StaticCallee()] {
 				return // routed to a helper: the arm is there
 			}
-			for _, ec := range controlling(ret.Block()) {
-				if bo, ok := ec.Cond.(*ssa.BinOp); ok && bo.Op == token.EQL && ec.Pol && strings.HasSuffix(path(bo.X), ".NodeType") {
-					if v, ok := constInt(bo.Y); ok {
-						if _, dup := arm[v]; !dup || !strings.Contains(path(ret.Results[0]), "InvalidLnColPos") {
-							arm[v] = ret
-						}
-					}
+			// a single exit fed by one assignment per arm: each incoming value is that arm's result
+			if ph, isP := ret.Results[0].(*ssa.Phi); isP && ph.Block() == ret.Block() {
+				for i, e := range ph.Edges {
+					pb := ret.Block().Preds[i]
+					record(e, pb.Instrs[len(pb.Instrs)-1], pb)
 				}
+				return
 			}
+			record(ret.Results[0], ret, ret.Block())
 		})
 	}
 	for k, name := range names {
@@ -138,13 +153,13 @@ func c17NodeStart(c *Ctx) {
 			r.Ob("NODE-START", key, t.Pos(fn.Pos()), false, "no arm for this node kind: an error that points at such a node is reported at -1:-1")
 			continue
 		}
-		p := path(ret.Results[0])
+		p := path(ret.val)
 		sn := k2s[k]
 		ok := strings.Contains(p, "."+sn+"()") || strings.Contains(p, "phi:")
 		if strings.Contains(p, "InvalidLnColPos") && !strings.Contains(p, "phi:") {
 			ok = false
 		}
-		r.Ob("NODE-START", key, t.Pos(ret.Pos()), ok, "arm returns "+p)
+		r.Ob("NODE-START", key, t.Pos(ret.at.Pos()), ok, "arm returns "+p)
 	}
 	r.Floor("NODE-START", 24)
 	// nil-safety inside NodeStartPos
@@ -582,6 +597,11 @@ func c17ErrPos(c *Ctx) {
 						r.Ob("ERR-POS", key, t.Pos(call.Pos()), okAll, "position "+p)
 						return
 					}
+					// a local closure: the variable it captures from the enclosing function is that function's node parameter
+					if fv, ok := rt.(*ssa.FreeVar); ok && isAstTyped(derefType(fv.Type())) && capturedParam(fv) != nil {
+						r.Ob("ERR-POS", key, t.Pos(call.Pos()), true, "position "+p+" derives from the enclosing function's node parameter "+capturedParam(fv).Name()+", captured by the closure")
+						return
+					}
 					r.Ob("ERR-POS", key, t.Pos(call.Pos()), false, fmt.Sprintf("position %s does not derive from an AST node parameter (root %T)", p, rt))
 				}
 				// file argument
@@ -716,21 +736,38 @@ func c17Chain(c *Ctx) {
 		first  bool
 	}
 	var fms []fm
+	joinNL := false
 	allInstrs(er, func(in ssa.Instruction) {
 		call, ok := in.(*ssa.Call)
 		if !ok {
 			return
 		}
 		f := call.Call.StaticCallee()
-		if f == nil || f.Name() != "Sprintf" {
+		if f == nil {
 			return
 		}
-		cst, ok := call.Call.Args[0].(*ssa.Const)
+		if f.Name() == "Join" && len(call.Call.Args) == 2 {
+			if sep, isC := call.Call.Args[1].(*ssa.Const); isC && sep.Value != nil && sep.Value.ExactString() == `"\n"` {
+				joinNL = true // the lines are built without their separator and joined by it
+			}
+		}
+		fi := 0 // fmt.Sprintf(format, …) or fmt.Fprintf(w, format, …) into a builder
+		switch f.Name() {
+		case "Sprintf":
+		case "Fprintf":
+			fi = 1
+		default:
+			return
+		}
+		if len(call.Call.Args) < fi+2 {
+			return
+		}
+		cst, ok := call.Call.Args[fi].(*ssa.Const)
 		if !ok {
 			return
 		}
 		x := fm{format: strings.Trim(cst.Value.ExactString(), `"`)}
-		if sl, ok := call.Call.Args[1].(*ssa.Slice); ok {
+		if sl, ok := call.Call.Args[fi+1].(*ssa.Slice); ok {
 			if a, ok := sl.X.(*ssa.Alloc); ok {
 				byIdx := map[int64]string{}
 				for _, ref := range *a.Referrers() {
@@ -765,7 +802,7 @@ func c17Chain(c *Ctx) {
 		if x.first && x.format == `%s:%d:%d: %s` && reflect.DeepEqual(x.args, []string{"File", "Ln", "Col", "Err"}) {
 			okFirst = true
 		}
-		if !x.first && x.format == `\n%s:%d:%d:` && reflect.DeepEqual(x.args, []string{"File", "Ln", "Col"}) {
+		if !x.first && (x.format == `\n%s:%d:%d:` || (joinNL && x.format == `%s:%d:%d:`)) && reflect.DeepEqual(x.args, []string{"File", "Ln", "Col"}) {
 			okRest = true
 		}
 	}
@@ -901,4 +938,54 @@ func c17LineBreaks(c *Ctx) {
 			r.Ob("LNCOL", relName(fn)+" counts every line break", t.Pos(fn.Pos()), nNL == 1 && okNL, fmt.Sprintf("%d tests `c == '\\n'`; extra condition on the bookkeeping: %q — a line break that is not recorded shifts every later position to the previous line", nNL, extra))
 		}
 	}
+}
+
+func derefType(t types.Type) types.Type {
+	if p, ok := t.Underlying().(*types.Pointer); ok {
+		if _, isNamed := t.(*types.Named); !isNamed {
+			if isAstTyped(p.Elem()) {
+				return p.Elem()
+			}
+		}
+	}
+	return t
+}
+
+// capturedParam: the free variable is bound, at every creation of its closure, to a parameter of the enclosing
+// function (by value, or by reference to the parameter's own never-reassigned slot).
+func capturedParam(fv *ssa.FreeVar) *ssa.Parameter {
+	f := fv.Parent()
+	if f == nil || f.Parent() == nil {
+		return nil
+	}
+	k := -1
+	for i, x := range f.FreeVars {
+		if x == fv {
+			k = i
+		}
+	}
+	var res *ssa.Parameter
+	bad := false
+	allInstrs(f.Parent(), func(in ssa.Instruction) {
+		mc, ok := in.(*ssa.MakeClosure)
+		if !ok || mc.Fn != ssa.Value(f) || k < 0 || k >= len(mc.Bindings) {
+			return
+		}
+		switch b := mc.Bindings[k].(type) {
+		case *ssa.Parameter:
+			res = b
+		case *ssa.Alloc:
+			if p := spilledParam(b); p != nil {
+				res = p
+			} else {
+				bad = true
+			}
+		default:
+			bad = true
+		}
+	})
+	if bad {
+		return nil
+	}
+	return res
 }
